@@ -19,6 +19,9 @@ func init() {
 	// one transient store error early in the upload of a tree that spans several file lists: the upload either fails and
 	// shows no bundle, or reports success and then the bundle is the whole tree
 	Register(&Scenario{Prop: "C04", Name: "upload-1000-one-store-error", Strict: false, Quick: 1, Thorough: 2, Run: func(rc *RunCtx) *simkit.Violation { return runC04(rc, 3) }})
+	// the same files were being uploaded before (to another repository) by a process that died or met a store error inside
+	// one blob write, leaving an empty or truncated blob behind: the upload that follows still reproduces the tree
+	Register(&Scenario{Prop: "C04", Name: "upload-after-interrupted-upload", Strict: true, Quick: 3, Thorough: 4, Run: func(rc *RunCtx) *simkit.Violation { return runC04(rc, 4) }})
 	Register(&Scenario{Prop: "C04", Name: "upload-download-2500", Strict: false, Quick: 0, Thorough: 1, Run: func(rc *RunCtx) *simkit.Violation { return runC04(rc, 2) }})
 }
 
@@ -81,6 +84,10 @@ func runC04(rc *RunCtx, big int) *simkit.Violation {
 	}
 	leaf := uint32(t.Pick(64, 65, 100, 1024, 4096, 65536))
 	var n int
+	interrupted := big == 4
+	if interrupted {
+		big = 0
+	}
 	switch big {
 	case 1:
 		n = t.Pick(999, 1000, 1001)
@@ -163,6 +170,33 @@ func runC04(rc *RunCtx, big int) *simkit.Violation {
 		w.Note("files: %q", tree.paths())
 	}
 
+	if interrupted && len(tree) > 0 {
+		prev := w.Client("prev")
+		if v := createRepo(prop, d, prev, "r0"); v != nil {
+			return v
+		}
+		kind := []simkit.Kind{simkit.FTorn, simkit.FTorn, simkit.FTorn, simkit.FCrashA, simkit.FCrashB, simkit.FErr}[t.Choose(6)]
+		nth, seen := t.Range(0, 8), 0
+		w.Faults = &simkit.FaultCfg{Plan: []*simkit.Planned{{Client: "prev", Kind: kind, Match: func(c *simkit.Call) bool {
+			if !c.Op.IsWrite() || c.Bucket != d.Blob {
+				return false
+			}
+			seen++
+			return seen-1 == nth
+		}}}}
+		_, pfn := d.upload(prev, d.Stores(prev), "r0", src, uploadOpts{leaf: leaf, concUp: t.Pick(1, 3), message: "interrupted"})
+		w.Go(prev, "upload-interrupted", pfn)
+		if v := w.Run(); v != nil {
+			if v.Property == "" {
+				v.Property = prop
+			}
+			return v
+		}
+		w.Faults = nil
+		if fired(w) {
+			w.Probe("earlier-upload-interrupted-" + kind.String())
+		}
+	}
 	// an unrelated client working in another repo at the same time
 	other := w.Client("other")
 	withOther := big == 0 && t.Bool(1, 3)
